@@ -1359,7 +1359,7 @@ def hm_lookup(M, fr, hm, key):
     cs = [tobool(c) if isinstance(c, bool) else c for c in conds]
     i = M.choose([simp(c) if is_sym(c) else c for c in conds])
     return i if i < len(hm.items) else -1
-@reg(r'^std::collections::(HashMap|BTreeMap)::new$|^std::collections::(HashSet|BTreeSet)::new$|^std::collections::HashMap::with_capacity$')
+@reg(r'^std::collections::(HashMap|BTreeMap)::(<.*>::)?new$|^std::collections::(HashSet|BTreeSet)::(<.*>::)?new$|^std::collections::(HashMap|HashSet)::(<.*>::)?with_capacity$')
 def _hm_new(M, fr, n, a): return VecV()
 @reg(r'^std::collections::(HashMap|BTreeMap)::(get|get_mut)$')
 def _hm_get(M, fr, n, a):
